@@ -616,7 +616,7 @@ def migration15(tdset):
     # If the field belongs to the section and the field's colRef is in its filterSpec,
     # pull the filter setting from the section.
     filter_spec = specs.get(f.parentId)
-    if filter_spec and str(f.colRef) in filter_spec:
+    if isinstance(filter_spec, dict) and str(f.colRef) in filter_spec:
       doc_actions.append(actions.UpdateRecord('_grist_Views_section_field', f.id, {
         'filter': json.dumps(filter_spec[str(f.colRef)])
       }))
